@@ -14,9 +14,9 @@ list of `read` / `write tokens` steps and a return value.  A handler ignores the
 reads (the worst case: a handler that returns the error ends the session anyway).
 
 Not modelled (assumptions of the theorems, listed in meta/C07.json and meta/C08.json): the
-WebSocket framing flag (`ws = false`), pending correlated requests (the `sentStanzas` table is
-empty, so result/error IQs fall through to the handler), write errors of the connection,
-handler writes that are not sequences of whole elements accepted by `encoding/xml`'s encoder.
+WebSocket framing flag (`ws = false`).  Modelled in separate entry points further down: pending
+correlated requests (`serveP`), a closed / broken output and the close deadline (`serveC`), a
+connection that refuses writes (`serveW`).
 -/
 namespace XmppModel.Serve
 open XmppModel.Xml
